@@ -4,6 +4,9 @@ C18 — property theorems of round 5.
 decrypters per group   loadDecrypters_fingerprints, foreign_fingerprint_has_no_decrypter, decrypterOf_last_wins,
                        decrypters_of_a_group_ignore_the_other_groups, cs_rejects_fingerprint_of_another_group,
                        rest_signed_route_rejects_key_of_another_group
+options                authOptions_prev_last_wins, authOptions_callback_irrelevant, authOptions_no_prev,
+                       authorize_with_options_runs_iff, overridden_prev_secret_is_refused
+rest monitor           rest_monitor_sound, authorize_ctx_forwarded
 converse               cs_complete_monitor_sound, csCovers_verifies, cryptionHandler_not_403, jwt_complete_monitor_sound, jwt_valid_credential_runs_handler, rest_valid_request_reaches_handler
 -/
 import GoZero.C18.PropsRest
@@ -130,6 +133,72 @@ theorem rest_signed_route_rejects_key_of_another_group {D : Type} (custom : Opti
     have := (runChain_ran_iff _ chn).mp hr contentSecurityName hin
     simp [respVerdict, hrej] at this
 
+/-! ## the option list of `Authorize`: for EVERY list of options -/
+
+/-- the last `WithPrevSecret` wins, whatever came before it -/
+theorem authOptions_prev_last_wins (opts : List AuthOption) (s : String) :
+    (authOptions (opts ++ [.prevSecret s])).prev = s := by
+  simp [authOptions, List.foldl_append, AuthOption.apply]
+
+/-- a callback option — wherever it stands in the list — does not touch the previous secret -/
+theorem authOptions_callback_irrelevant (pre post : List AuthOption) (b : Bool) :
+    (authOptions (pre ++ .callback b :: post)).prev = (authOptions (pre ++ post)).prev := by
+  unfold authOptions
+  rw [List.foldl_append, List.foldl_append, List.foldl_cons]
+  generalize List.foldl AuthOption.apply {} pre = o
+  have key : ∀ (l : List AuthOption) (o1 o2 : AuthOpts), o1.prev = o2.prev →
+      (l.foldl AuthOption.apply o1).prev = (l.foldl AuthOption.apply o2).prev := by
+    intro l
+    induction l with
+    | nil => intro o1 o2 h; exact h
+    | cons a t ih =>
+      intro o1 o2 h
+      simp only [List.foldl_cons]
+      apply ih
+      cases a <;> simp [AuthOption.apply, h]
+  exact key post _ _ rfl
+
+/-- without any `WithPrevSecret` no previous secret is in force -/
+theorem authOptions_no_prev (opts : List AuthOption) (h : ∀ o ∈ opts, ∃ b, o = .callback b) :
+    (authOptions opts).prev = "" := by
+  unfold authOptions
+  have key : ∀ (l : List AuthOption) (o : AuthOpts), (∀ x ∈ l, ∃ b, x = .callback b) → (l.foldl AuthOption.apply o).prev = o.prev := by
+    intro l
+    induction l with
+    | nil => intro o _; rfl
+    | cons a t ih =>
+      intro o hl
+      simp only [List.foldl_cons]
+      rw [ih _ (fun x hx => hl x (by simp [hx]))]
+      obtain ⟨b, hb⟩ := hl a (by simp)
+      subst hb; rfl
+  exact key opts {} h
+
+/-- J1 over the WHOLE constructor space: `Authorize(secret, opts...)` with ANY option list runs the handler exactly for a
+credential that is valid under `secret` or under the previous secret IN FORCE after the options were applied -/
+theorem authorize_with_options_runs_iff {V : Type} (f : TokenFacts V) (now : Int) (h : Hist) (secret : String)
+    (opts : List AuthOption) (clock : Int) :
+    (authorizeWith (jwtVerify f now) h secret opts clock).2.ran = credentialOk f now secret (authOptions opts).prev := by
+  unfold authorizeWith
+  exact jwt_handler_runs_iff_valid_credential f now h secret _ clock
+
+/-- a secret named by an OVERRIDDEN `WithPrevSecret` is worth nothing: a token that verifies only under it is refused -/
+theorem overridden_prev_secret_is_refused {V : Type} (f : TokenFacts V) (now : Int) (h : Hist) (secret disc prev : String)
+    (pre : List AuthOption) (clock : Int) (h1 : f.sigOk secret = false) (h2 : f.sigOk prev = false) :
+    (authorizeWith (jwtVerify f now) h secret (pre ++ [.prevSecret disc, .prevSecret prev]) clock).2.ran = false := by
+  rw [authorize_with_options_runs_iff]
+  have : (authOptions (pre ++ [.prevSecret disc, .prevSecret prev])).prev = prev := by
+    have := authOptions_prev_last_wins (pre ++ [.prevSecret disc]) prev
+    simpa using this
+  rw [this]
+  simp [credentialOk, h1, h2]
+
+/-- a rejected request is answered 401 unless the user's callback answered first -/
+theorem unauthorized_default_401 : unauthorizedStatus none = 401 := rfl
+
+example : authOptions [.prevSecret "a", .callback true, .prevSecret "b"] = { prev := "b", callback := true } := by decide
+example : authOptions [.callback false] = { prev := "", callback := false } := by decide
+
 /-! ## the converse direction: valid credentials reach the handler -/
 
 /-- the completeness monitor never fires on what the model does: the gate turns away ONLY requests without a valid
@@ -247,6 +316,153 @@ example : jwtCompleteMonitor exValidFacts 5 "k" "" { ran := false, status := 401
 example : jwtCompleteMonitor exValidFacts 5 "k" "" { ran := true, status := 200, ctx := [] } = none := by decide
 example : restCompleteMonitor { jwt := true } true true false true false 401 ≠ none := by decide
 example : restCompleteMonitor { jwt := true } true false false true false 401 = none := by decide
+
+/-! ## `restMonitor` is silent on the model -/
+
+theorem filter_mem_nil (l uses : List String) (h : ∀ n ∈ l, n ∉ uses) : l.filter (fun n => uses.contains n) = [] := by
+  rw [List.filter_eq_nil_iff]
+  intro n hn
+  simpa using h n hn
+
+theorem filter_mem_self (uses : List String) : uses.filter (fun n => uses.contains n) = uses := by
+  rw [List.filter_eq_self]
+  intro n hn
+  simpa using hn
+
+theorem gatesOf_not_in_uses (o : RouteOpts) (uses : List String) (hu1 : authorizeName ∉ uses) (hu2 : contentSecurityName ∉ uses) :
+    ∀ n ∈ gatesOf o, n ∉ uses := by
+  intro n hn
+  unfold gatesOf at hn
+  simp only [List.mem_append] at hn
+  rcases hn with hn | hn
+  · by_cases hj : o.jwt = true
+    · simp [hj] at hn; subst hn; exact hu1
+    · simp [hj] at hn
+  · by_cases hs : o.sig = true ∧ o.sigKeys = true
+    · simp [hs] at hn; subst hn; exact hu2
+    · simp [hs] at hn
+
+/-- the model's context on an accepted request is what the monitor demands -/
+theorem authorize_ctx_forwarded {V : Type} [DecidableEq V] (f : TokenFacts V) (now : Int) (h : Hist) (secret prev : String)
+    (clock : Int) (hr : (authorize (jwtVerify f now) h secret prev clock).2.ran = true) :
+    (authorize (jwtVerify f now) h secret prev clock).2.ctx = forwarded f.claims := by
+  have hm := jwt_monitor_sound f now h secret prev clock
+  have hc : credentialOk f now secret prev = true := by
+    rw [← jwt_handler_runs_iff_valid_credential f now h secret prev clock]; exact hr
+  unfold jwtMonitor at hm
+  simp only [hr, hc, if_true, Bool.not_true, Bool.false_eq_true, if_false] at hm
+  by_cases he : (authorize (jwtVerify f now) h secret prev clock).2.ctx = forwarded f.claims
+  · exact he
+  · simp [he] at hm
+
+/-- `restMonitor` never fires on the model: for EVERY base chain (user chain or native one under every switch setting),
+`Use` list, option set, token, clock, history and signature verdict (default callbacks) -/
+theorem rest_monitor_sound {V : Type} [DecidableEq V] (custom : Option (List String)) (m : MwConf) (o : RouteOpts)
+    (uses chn : List String) (f : TokenFacts V) (now : Int) (h : Hist) (secret prev : String) (clock : Int)
+    (gated covered : Bool)
+    (hb : bindRoute custom m o uses = some chn)
+    (hbase : ∀ n ∈ custom.getD (nativeChain m), n ≠ authorizeName ∧ n ≠ contentSecurityName ∧ n ∉ uses)
+    (hu1 : authorizeName ∉ uses) (hu2 : contentSecurityName ∉ uses) :
+    restMonitor o gated (credentialOk f now secret prev) covered f.claims uses.length
+      (restServe o uses chn (authorize (jwtVerify f now) h secret prev clock).2 (csGateVerdict o.sigStrict false gated covered)).ran
+      (restServe o uses chn (authorize (jwtVerify f now) h secret prev clock).2 (csGateVerdict o.sigStrict false gated covered)).status
+      (restServe o uses chn (authorize (jwtVerify f now) h secret prev clock).2 (csGateVerdict o.sigStrict false gated covered)).ctx
+      (restServe o uses chn (authorize (jwtVerify f now) h secret prev clock).2 (csGateVerdict o.sigStrict false gated covered)).usesRan
+      = none := by
+  generalize hout : (authorize (jwtVerify f now) h secret prev clock).2 = out
+  generalize hcs : csGateVerdict o.sigStrict false gated covered = cs
+  have hne : contentSecurityName ≠ authorizeName := by decide
+  have hvbase : ∀ n ∈ custom.getD (nativeChain m), gateVerdict (authVerdict out) cs n = none := by
+    intro n hn; obtain ⟨h1, h2, _⟩ := hbase n hn; simp [gateVerdict, h1, h2]
+  have hvuses : ∀ n ∈ uses, gateVerdict (authVerdict out) cs n = none := by
+    intro n hn
+    have h1 : n ≠ authorizeName := fun e => hu1 (e ▸ hn)
+    have h2 : n ≠ contentSecurityName := fun e => hu2 (e ▸ hn)
+    simp [gateVerdict, h1, h2]
+  have hchn := bindRoute_chain custom m o uses chn hb
+  have hcred : out.ran = credentialOk f now secret prev := by
+    rw [← hout]; exact jwt_handler_runs_iff_valid_credential f now h secret prev clock
+  by_cases hall : ∀ g ∈ gatesOf o, gateVerdict (authVerdict out) cs g = none
+  · have hrun : runChain (gateVerdict (authVerdict out) cs) chn = { saw := chn, ran := true, status := 200 } := by
+      apply runChain_all_pass
+      intro n hn; rw [hchn] at hn; simp only [List.mem_append] at hn
+      rcases hn with (hn | hn) | hn
+      · exact hvbase n hn
+      · exact hall n hn
+      · exact hvuses n hn
+    have hfilter : (chn.filter fun n => uses.contains n) = uses := by
+      rw [hchn, List.filter_append, List.filter_append,
+        filter_mem_nil _ uses (fun n hn => (hbase n hn).2.2),
+        filter_mem_nil _ uses (gatesOf_not_in_uses o uses hu1 hu2), filter_mem_self]
+      simp
+    unfold restServe restMonitor
+    simp only [hrun, hfilter, if_true, Bool.true_and]
+    -- the jwt gate passed ⇒ the credential is valid and the context is the forwarded claims
+    have hj : o.jwt = true → out.ran = true := by
+      intro hj
+      have := hall authorizeName (by simp [gatesOf, hj])
+      simp only [gateVerdict, if_true, authVerdict] at this
+      by_cases hr : out.ran = true
+      · exact hr
+      · simp [hr] at this
+    have hs : (o.sig = true ∧ o.sigKeys = true) → cs = none := by
+      intro hs
+      have := hall contentSecurityName (by simp [gatesOf, hs])
+      simpa [gateVerdict, hne] using this
+    by_cases hjwt : o.jwt = true
+    · have hr := hj hjwt
+      have hctx : out.ctx = forwarded f.claims := by
+        rw [← hout] at hr ⊢; exact authorize_ctx_forwarded f now h secret prev clock hr
+      have hc : credentialOk f now secret prev = true := by rw [← hcred]; exact hr
+      by_cases hsig : o.sig = true ∧ o.sigKeys = true ∧ o.sigStrict = true ∧ gated = true ∧ covered = false
+      · exfalso
+        have := hs ⟨hsig.1, hsig.2.1⟩
+        rw [← hcs] at this
+        simp [csGateVerdict, hsig.2.2.1, hsig.2.2.2.1, hsig.2.2.2.2] at this
+      · simp [hjwt, hc, hctx]
+        intro a b c d
+        cases covered <;> simp_all
+    · have hjf : o.jwt = false := by simpa using hjwt
+      by_cases hsig : o.sig = true ∧ o.sigKeys = true ∧ o.sigStrict = true ∧ gated = true ∧ covered = false
+      · exfalso
+        have := hs ⟨hsig.1, hsig.2.1⟩
+        rw [← hcs] at this
+        simp [csGateVerdict, hsig.2.2.1, hsig.2.2.2.1, hsig.2.2.2.2] at this
+      · simp [hjf]
+        intro a b c d
+        cases covered <;> simp_all
+  · -- a gate answers the request
+    have hrej : ∃ g ∈ gatesOf o, gateVerdict (authVerdict out) cs g ≠ none := by
+      simpa using hall
+    obtain ⟨hran, hsaw⟩ := rest_use_middlewares_are_behind_the_gates custom m o uses chn _ hb hvbase hrej
+    have hfilter : ((runChain (gateVerdict (authVerdict out) cs) chn).saw.filter fun n => uses.contains n) = [] := by
+      apply filter_mem_nil
+      intro n hn
+      have := hsaw n hn
+      simp only [List.mem_append] at this
+      rcases this with this | this
+      · exact (hbase n this).2.2
+      · exact gatesOf_not_in_uses o uses hu1 hu2 n this
+    unfold restServe restMonitor
+    simp only [hran, hfilter, Bool.false_eq_true, if_false, List.length_nil]
+    have hg : ¬ (o.jwt = false ∧ ¬ (o.sig = true ∧ o.sigKeys = true)) := by
+      rintro ⟨h1, h2⟩
+      obtain ⟨g, hg, _⟩ := hrej
+      simp [gatesOf, h1, h2] at hg
+    by_cases h1 : o.jwt = true
+    · simp [h1]
+    · have h1' : o.jwt = false := by simpa using h1
+      have h2 : o.sig = true ∧ o.sigKeys = true := by
+        by_cases h2 : o.sig = true ∧ o.sigKeys = true
+        · exact h2
+        · exact absurd ⟨h1', h2⟩ hg
+      simp [h1', h2.1, h2.2]
+
+/-- a jwt route behind a user chain: a rejected request stops at the gate, no `Use` middleware sees it -/
+example : restServe (V := String) { jwt := true } ["use0"] ["cm0", authorizeName, "use0"] { ran := false, status := 401, ctx := [] } none =
+    { ran := false, status := 401, ctx := [], usesRan := 0 } := by decide
+example : restServe (V := String) { jwt := true } ["use0"] ["cm0", authorizeName, "use0"] { ran := true, status := 200, ctx := [("uid", "1")] } none =
+    { ran := true, status := 200, ctx := [("uid", "1")], usesRan := 1 } := by decide
 
 /-! ### non-vacuity -/
 
